@@ -485,6 +485,15 @@ def run(ctx):
     ctx.extra["lexer_cases"] = {"texts": len(llines), "layout": sum(1 for m in lmeta2 if m[0] == "layout"), "adjacent": sum(1 for m in lmeta2 if m[0] == "adjacent"), "differ": len(lbad)}
     ctx.extra["value_cases"] = {"run": len(blocks), "rejected_by_typing": rejected, "spec_skipped": sum(1 for c in vcodes if c is not None and c & 8)}
     ctx.extra["tight_minus_cases"] = tight
+    # tree printer: the printed return expression, parsed again by the real parser, must be the same tree
+    rp = [(j["text"], r["reprint"]) for j, r in zip(jobs, res) if isinstance(r, dict) and r.get("reprint")]
+    rp_bad = [(t, x) for t, x in rp if x.get("same") is False]
+    ctx.extra["printer_roundtrip"] = {"trees_printed_and_reparsed": sum(1 for t, x in rp if x.get("same") is True), "differ": len(rp_bad),
+                                      "printed_text_not_reparsed": sum(1 for t, x in rp if x.get("same") is None)}
+    if rp_bad:
+        t, x = min(rp_bad, key=lambda y: len(y[0]))
+        ctx.violation("failing-input", {"what": "the tree printer (BinaryExpression.__str__) prints a grouping that parses to a different tree", "source": t,
+                                        "printed": x["printed"], "count": len(rp_bad)})
     ctx.extra["compound_assignment_cases"] = compound
     if compound_bad:
         j, ra, rb, why = compound_bad[0]
